@@ -162,3 +162,34 @@ def write_cfg(name, text):
     with open(path, "w") as fh:
         fh.write(text)
     return path
+
+
+def search(module, cfg, records, name, shards=16, timeout=3600):
+    """run a searching validator (several printed records per tid); returns all printed records and summed stats"""
+    d = workdir("srch_" + name)
+    n = len(records)
+    if n == 0:
+        return [], {"generated": 0, "distinct": 0}
+    shards = max(1, min(shards, n))
+    per = (n + shards - 1) // shards
+    jobs = []
+    for s_ in range(shards):
+        chunk = records[s_ * per:(s_ + 1) * per]
+        if not chunk:
+            continue
+        path = os.path.join(d, f"shard{s_}.ndjson")
+        with open(path, "w") as fh:
+            for b in chunk:
+                fh.write(json.dumps(b, separators=(",", ":")) + "\n")
+        jobs.append((module, cfg, path, s_, None, timeout))
+    prints = []
+    stats = {"generated": 0, "distinct": 0}
+    with cf.ThreadPoolExecutor(max_workers=16) as ex:
+        for r in ex.map(_validate_shard, jobs):
+            if "error" in r:
+                raise TLCError(f"search validator {module}/{cfg} crashed on shard {r['idx']}:\n{r['error']}")
+            prints += r["prints"]
+            stats["generated"] += r["stats"]["generated"]
+            stats["distinct"] += r["stats"]["distinct"]
+    shutil.rmtree(d, ignore_errors=True)
+    return prints, stats
